@@ -1,18 +1,37 @@
 (* The theorems of property C11 about the full model (LCSFunc's model followed by the edit
-   loop), for every element type and every equivalence eqb: Slice/EditProofs.v instantiated
-   with the facts C12 proves about lcs_func (Slice/LcsProofs.v: total, a common subsequence,
-   of maximum length). *)
+   loop): Slice/EditProofs.v instantiated with the facts C12 proves about lcs_func
+   (Slice/LcsProofs.v: total, an exact subsequence of one input and an eqb-subsequence of the
+   other, of maximum length).
+
+   Part 1 (Section EditTheoremsPer): for every element type and every PARTIAL equivalence eqb
+   (symmetric and transitive; reflexivity not needed).  This is what == is on every comparable Go
+   type, floating-point NaN included (NaN == NaN is false: such elements are related to nothing,
+   never enter the LCS and are dropped / copied).
+   Part 2: the same under the names and signatures of the first round (reflexive, symmetric,
+   transitive) -- other slices (Mdiff/MdiffCompose.v) call these positionally; keep them stable.
+   Part 3: eqb decides equality (the public EditScript on ints, strings, ...). *)
 From Coq Require Import ZArith List Bool Lia.
 Import ListNotations.
 From Mds Require Import Gen.EditIdx Slice.Subseq Slice.LcsModel Slice.LcsProofs
      Slice.EditModel Slice.EditSpecProofs Slice.EditProofs Slice.EditCapProofs.
 
-Section EditTheorems.
+Section EditTheoremsPer.
   Variable T : Type.
   Variable eqb : T -> T -> bool.
-  Hypothesis eqb_refl : forall x, eqb x x = true.
   Hypothesis eqb_sym : forall x y, eqb x y = true -> eqb y x = true.
   Hypothesis eqb_trans : forall x y z, eqb x y = true -> eqb y z = true -> eqb x z = true.
+
+  (* C12's lcs_func_exact (no law needed): the value is an exact subsequence of one input and
+     an eqb-subsequence of the other; under a partial equivalence its elements are related to
+     themselves, so it is an eqb-subsequence of both *)
+  Lemma lcs_func_common_per : forall l r s,
+      lcs_func T eqb l r = Some s -> SubseqB eqb s l /\ SubseqB eqb s r.
+  Proof.
+    intros l r s H. pose proof (lcs_func_exact T eqb l r s H) as E. unfold lcs_swap in E.
+    destruct (Gen.LcsIdx.lcs_swap_cond (LcsModel.zlen l) (LcsModel.zlen r)); destruct E as [E1 E2];
+      pose proof (SubB_self T eqb eqb_sym eqb_trans _ _ E2) as Hs;
+      pose proof (Subseq_SubB_self T eqb _ _ E1 Hs); tauto.
+  Qed.
 
   (* lcs := LCSFunc(a, b, eq) where (a, b) is (lhs, rhs) in the order the call passes them
      (EditProofs.skeleton_calls: one of the two orders): in either order the value is a common
@@ -29,17 +48,17 @@ Section EditTheorems.
     generalize (es_lcs_arg0 0 1 2) (es_lcs_arg1 0 1 2).
     intros c0 c1 [[= -> ->] | [= -> ->]]; cbn [pick_arg Z.eqb].
     - destruct (lcs_func_total T eqb lhs rhs) as [L HL].
-      destruct (lcs_func_common T eqb eqb_refl lhs rhs L HL) as [Hl Hr].
+      destruct (lcs_func_common_per lhs rhs L HL) as [Hl Hr].
       pose proof (lcs_func_optimal T eqb eqb_sym eqb_trans lhs rhs L HL) as Hopt.
       exists lhs, rhs, L. auto 7.
     - destruct (lcs_func_total T eqb rhs lhs) as [L HL].
-      destruct (lcs_func_common T eqb eqb_refl rhs lhs L HL) as [Hr Hl].
+      destruct (lcs_func_common_per rhs lhs L HL) as [Hr Hl].
       pose proof (lcs_func_optimal T eqb eqb_sym eqb_trans rhs lhs L HL) as Hopt.
       exists rhs, lhs, L. repeat split; auto.
   Qed.
 
-  (* everything at once, about the faithful result *)
-  Theorem edit_script_run_spec : forall lhs rhs,
+  (* everything at once, about the faithful result on inputs without spare capacity *)
+  Theorem edit_script_run_spec_per : forall lhs rhs,
       exists L es,
         lcs_func T eqb lhs rhs = Some L /\
         CommonSubseq eqb L lhs rhs /\
@@ -53,7 +72,7 @@ Section EditTheorems.
   Proof.
     intros lhs rhs.
     destruct (lcs_func_total T eqb lhs rhs) as [L HL].
-    destruct (lcs_func_common T eqb eqb_refl lhs rhs L HL) as [Hl Hr].
+    destruct (lcs_func_common_per lhs rhs L HL) as [Hl Hr].
     pose proof (lcs_func_optimal T eqb eqb_sym eqb_trans lhs rhs L HL) as Hopt.
     destruct (lcs_call_facts lhs rhs) as (a & b & L' & Ha & Hb & HL' & Hl' & Hr' & Hopt').
     assert (Hlen : length L' = length L)
@@ -65,29 +84,29 @@ Section EditTheorems.
     - intros t [H1 H2]. exact (Hopt t H1 H2).
     - congruence.
     - intros es' Hv'. rewrite Hk.
-      exact (Valid_kept_le T eqb eqb_refl lhs rhs L' Hopt' es' Hv').
+      exact (Valid_kept_le T eqb eqb_sym eqb_trans lhs rhs L' Hopt' es' Hv').
     - intros Heq.
-      pose proof (of_lcs_equal_inputs T eqb eqb_refl eqb_sym eqb_trans [] [] lhs rhs L' Hl' Hr' Hopt' Heq) as H0.
+      pose proof (of_lcs_equal_inputs T eqb eqb_sym eqb_trans [] [] lhs rhs L' Hl' Hr' Hopt' Heq) as H0.
       congruence.
   Qed.
 
   (* no index out of range, no slice bound out of range, no loop out of fuel *)
-  Theorem edit_script_run_ok : forall lhs rhs,
+  Theorem edit_script_run_ok_per : forall lhs rhs,
       edit_script_run eqb lhs rhs = EOk (edit_script_func eqb lhs rhs).
   Proof.
-    intros lhs rhs. destruct (edit_script_run_spec lhs rhs) as (L & es & _ & _ & _ & Hrun & _).
+    intros lhs rhs. destruct (edit_script_run_spec_per lhs rhs) as (L & es & _ & _ & _ & Hrun & _).
     unfold edit_script_func. now rewrite Hrun.
   Qed.
 
   (* whatever the spare capacity of the inputs holds (Go checks slice bounds against cap, and a
      slice could expose what lies beyond len): the same script *)
-  Theorem edit_script_run_cap_indep : forall lx rx lhs rhs,
+  Theorem edit_script_run_cap_indep_per : forall lx rx lhs rhs,
       edit_script_run_cap eqb lx rx lhs rhs = EOk (edit_script_func eqb lhs rhs).
   Proof.
-    intros lx rx lhs rhs. apply edit_script_run_cap_mono. apply edit_script_run_ok.
+    intros lx rx lhs rhs. apply edit_script_run_cap_mono. apply edit_script_run_ok_per.
   Qed.
 
-  Lemma func_spec : forall lhs rhs,
+  Lemma func_spec_per : forall lhs rhs,
       exists L, lcs_func T eqb lhs rhs = Some L /\
         let es := edit_script_func eqb lhs rhs in
         ValidScript eqb lhs rhs es /\
@@ -96,54 +115,62 @@ Section EditTheorems.
         canonical es = true /\ alternating es = true /\
         (es = [] <-> EqLists eqb lhs rhs).
   Proof.
-    intros lhs rhs. destruct (edit_script_run_spec lhs rhs) as (L & es & HL & _ & _ & Hrun & H).
+    intros lhs rhs. destruct (edit_script_run_spec_per lhs rhs) as (L & es & HL & _ & _ & Hrun & H).
     exists L. split; [assumption|]. unfold edit_script_func. rewrite Hrun. exact H.
   Qed.
 
-  Theorem edit_script_valid : forall lhs rhs,
+  Theorem edit_script_valid_per : forall lhs rhs,
       ValidScript eqb lhs rhs (edit_script_func eqb lhs rhs).
-  Proof. intros lhs rhs. destruct (func_spec lhs rhs) as (L & _ & H & _). exact H. Qed.
+  Proof. intros lhs rhs. destruct (func_spec_per lhs rhs) as (L & _ & H & _). exact H. Qed.
 
-  Theorem edit_script_kept : forall lhs rhs,
+  Theorem edit_script_kept_per : forall lhs rhs,
       exists L, lcs_func T eqb lhs rhs = Some L /\
                 kept (expand lhs (edit_script_func eqb lhs rhs)) = length L.
-  Proof. intros lhs rhs. destruct (func_spec lhs rhs) as (L & HL & _ & H & _). eauto. Qed.
+  Proof. intros lhs rhs. destruct (func_spec_per lhs rhs) as (L & HL & _ & H & _). eauto. Qed.
 
-  Theorem edit_script_minimal : forall lhs rhs es',
+  Theorem edit_script_minimal_per : forall lhs rhs es',
       Valid eqb lhs rhs es' ->
       (kept es' <= kept (expand lhs (edit_script_func eqb lhs rhs)))%nat.
-  Proof. intros lhs rhs. destruct (func_spec lhs rhs) as (L & _ & _ & _ & H & _). exact H. Qed.
+  Proof. intros lhs rhs. destruct (func_spec_per lhs rhs) as (L & _ & _ & _ & H & _). exact H. Qed.
 
   (* the same against the most general class of scripts (any sequence of edits that executes
      from lhs to rhs, unused fields ignored) ... *)
-  Theorem edit_script_minimal_exec : forall lhs rhs es',
+  Theorem edit_script_minimal_exec_per : forall lhs rhs es',
       Exec eqb lhs rhs es' ->
       (kept es' <= kept (expand lhs (edit_script_func eqb lhs rhs)))%nat.
   Proof.
     intros lhs rhs es' H. destruct (Exec_clean T eqb es' lhs rhs H) as (Hv & <- & _).
-    now apply edit_script_minimal.
+    now apply edit_script_minimal_per.
   Qed.
 
   (* ... and read as the size of the change: no script removes + inserts fewer elements *)
-  Theorem edit_script_least_cost : forall lhs rhs es',
+  Theorem edit_script_least_cost_per : forall lhs rhs es',
       Exec eqb lhs rhs es' ->
       (cost (expand lhs (edit_script_func eqb lhs rhs)) <= cost es')%nat.
   Proof.
     intros lhs rhs es' H.
-    pose proof (edit_script_minimal_exec lhs rhs es' H) as Hk.
+    pose proof (edit_script_minimal_exec_per lhs rhs es' H) as Hk.
     pose proof (Exec_cost T eqb es' lhs rhs H) as H1.
-    pose proof (Exec_cost T eqb _ lhs rhs (Valid_Exec T eqb _ _ _ (edit_script_valid lhs rhs))) as H2.
+    pose proof (Exec_cost T eqb _ lhs rhs (Valid_Exec T eqb _ _ _ (edit_script_valid_per lhs rhs))) as H2.
     lia.
   Qed.
 
-  Theorem edit_script_canonical : forall lhs rhs,
+  Theorem edit_script_canonical_per : forall lhs rhs,
       canonical (edit_script_func eqb lhs rhs) = true /\
       alternating (edit_script_func eqb lhs rhs) = true.
-  Proof. intros lhs rhs. destruct (func_spec lhs rhs) as (L & _ & _ & _ & _ & H1 & H2 & _). auto. Qed.
+  Proof. intros lhs rhs. destruct (func_spec_per lhs rhs) as (L & _ & _ & _ & _ & H1 & H2 & _). auto. Qed.
 
-  Theorem edit_script_empty_iff : forall lhs rhs,
+  Theorem edit_script_empty_iff_per : forall lhs rhs,
       edit_script_func eqb lhs rhs = [] <-> EqLists eqb lhs rhs.
-  Proof. intros lhs rhs. destruct (func_spec lhs rhs) as (L & _ & _ & _ & _ & _ & _ & H). exact H. Qed.
+  Proof. intros lhs rhs. destruct (func_spec_per lhs rhs) as (L & _ & _ & _ & _ & _ & _ & H). exact H. Qed.
+
+  (* read as an execution: the script consumes exactly lhs; its output is rhs, position by
+     position the very element of rhs (Copy, Replace) or an element of lhs equivalent to it
+     (Emit) *)
+  Theorem edit_script_exec_per : forall lhs rhs,
+      let es := expand lhs (edit_script_func eqb lhs rhs) in
+      consumed es = lhs /\ Forall2 (fun a b => a = b \/ eqb a b = true) (produced es) rhs.
+  Proof. intros lhs rhs. exact (Valid_exec_gen T eqb _ lhs rhs (edit_script_valid_per lhs rhs)). Qed.
 
   (* the whole property in one statement, at full strength: any spare capacity behind the
      inputs, minimality against every executable script, in kept elements and in size of change *)
@@ -162,25 +189,94 @@ Section EditTheorems.
         (es = [] <-> EqLists eqb lhs rhs).
   Proof.
     intros lhs rhs.
-    destruct (edit_script_run_spec lhs rhs) as (L & es & HL & Hc & Ho & Hrun & Hv & Hk & _ & Hcan & Halt & He).
+    destruct (edit_script_run_spec_per lhs rhs) as (L & es & HL & Hc & Ho & Hrun & Hv & Hk & _ & Hcan & Halt & He).
     assert (Hes : es = edit_script_func eqb lhs rhs) by (unfold edit_script_func; now rewrite Hrun).
     exists L, es. subst es.
     split; [exact HL|]. split; [exact Hc|]. split; [exact Ho|].
-    split; [intros lx rx; apply edit_script_run_cap_indep|].
+    split; [intros lx rx; apply edit_script_run_cap_indep_per|].
     split; [exact Hv|]. split; [exact Hk|].
     split; [intros es' He'; split;
-            [now apply edit_script_minimal_exec | now apply edit_script_least_cost]|].
+            [now apply edit_script_minimal_exec_per | now apply edit_script_least_cost_per]|].
     split; [exact Hcan|]. split; [exact Halt | exact He].
   Qed.
+End EditTheoremsPer.
+
+(* ---- Part 2: the first round's names, for an equivalence (explicit hypotheses: callers pass
+   T eqb refl sym trans positionally) --------------------------------------------------------- *)
+Section EditTheorems.
+  Variable T : Type.
+  Variable eqb : T -> T -> bool.
+
+  Local Notation Refl := (forall x, eqb x x = true).
+  Local Notation Sym := (forall x y, eqb x y = true -> eqb y x = true).
+  Local Notation Trans := (forall x y z, eqb x y = true -> eqb y z = true -> eqb x z = true).
+
+  Theorem edit_script_run_spec : Refl -> Sym -> Trans -> forall lhs rhs,
+      exists L es,
+        lcs_func T eqb lhs rhs = Some L /\
+        CommonSubseq eqb L lhs rhs /\
+        (forall t, CommonSubseq eqb t lhs rhs -> (length t <= length L)%nat) /\
+        edit_script_run eqb lhs rhs = EOk es /\
+        ValidScript eqb lhs rhs es /\
+        kept (expand lhs es) = length L /\
+        (forall es', Valid eqb lhs rhs es' -> (kept es' <= kept (expand lhs es))%nat) /\
+        canonical es = true /\ alternating es = true /\
+        (es = [] <-> EqLists eqb lhs rhs).
+  Proof. intros _ Hs Ht. exact (edit_script_run_spec_per T eqb Hs Ht). Qed.
+
+  Theorem edit_script_run_ok : Refl -> Sym -> Trans -> forall lhs rhs,
+      edit_script_run eqb lhs rhs = EOk (edit_script_func eqb lhs rhs).
+  Proof. intros _ Hs Ht. exact (edit_script_run_ok_per T eqb Hs Ht). Qed.
+
+  Theorem edit_script_run_cap_indep : Refl -> Sym -> Trans -> forall lx rx lhs rhs,
+      edit_script_run_cap eqb lx rx lhs rhs = EOk (edit_script_func eqb lhs rhs).
+  Proof. intros _ Hs Ht. exact (edit_script_run_cap_indep_per T eqb Hs Ht). Qed.
+
+  Theorem edit_script_valid : Refl -> Sym -> Trans -> forall lhs rhs,
+      ValidScript eqb lhs rhs (edit_script_func eqb lhs rhs).
+  Proof. intros _ Hs Ht. exact (edit_script_valid_per T eqb Hs Ht). Qed.
+
+  Theorem edit_script_kept : Refl -> Sym -> Trans -> forall lhs rhs,
+      exists L, lcs_func T eqb lhs rhs = Some L /\
+                kept (expand lhs (edit_script_func eqb lhs rhs)) = length L.
+  Proof. intros _ Hs Ht. exact (edit_script_kept_per T eqb Hs Ht). Qed.
+
+  Theorem edit_script_minimal : Refl -> Sym -> Trans -> forall lhs rhs es',
+      Valid eqb lhs rhs es' ->
+      (kept es' <= kept (expand lhs (edit_script_func eqb lhs rhs)))%nat.
+  Proof. intros _ Hs Ht. exact (edit_script_minimal_per T eqb Hs Ht). Qed.
+
+  Theorem edit_script_minimal_exec : Refl -> Sym -> Trans -> forall lhs rhs es',
+      Exec eqb lhs rhs es' ->
+      (kept es' <= kept (expand lhs (edit_script_func eqb lhs rhs)))%nat.
+  Proof. intros _ Hs Ht. exact (edit_script_minimal_exec_per T eqb Hs Ht). Qed.
+
+  Theorem edit_script_least_cost : Refl -> Sym -> Trans -> forall lhs rhs es',
+      Exec eqb lhs rhs es' ->
+      (cost (expand lhs (edit_script_func eqb lhs rhs)) <= cost es')%nat.
+  Proof. intros _ Hs Ht. exact (edit_script_least_cost_per T eqb Hs Ht). Qed.
+
+  Theorem edit_script_canonical : Refl -> Sym -> Trans -> forall lhs rhs,
+      canonical (edit_script_func eqb lhs rhs) = true /\
+      alternating (edit_script_func eqb lhs rhs) = true.
+  Proof. intros _ Hs Ht. exact (edit_script_canonical_per T eqb Hs Ht). Qed.
+
+  Theorem edit_script_empty_iff : Refl -> Sym -> Trans -> forall lhs rhs,
+      edit_script_func eqb lhs rhs = [] <-> EqLists eqb lhs rhs.
+  Proof. intros _ Hs Ht. exact (edit_script_empty_iff_per T eqb Hs Ht). Qed.
 
   (* read as an execution: the script consumes exactly lhs and outputs rhs (up to eqb) *)
-  Theorem edit_script_exec : forall lhs rhs,
+  Theorem edit_script_exec : Refl -> Sym -> Trans -> forall lhs rhs,
       let es := expand lhs (edit_script_func eqb lhs rhs) in
       consumed es = lhs /\ EqLists eqb (produced es) rhs.
-  Proof. intros lhs rhs. exact (Valid_exec T eqb eqb_refl _ lhs rhs (edit_script_valid lhs rhs)). Qed.
+  Proof.
+    intros Hr Hs Ht lhs rhs.
+    exact (Valid_exec T eqb Hr _ lhs rhs (edit_script_valid_per T eqb Hs Ht lhs rhs)).
+  Qed.
 End EditTheorems.
 
-(* The public EditScript: eq is ==, i.e. eqb decides equality; the output is rhs itself. *)
+(* ---- Part 3: the public EditScript: eq is ==, i.e. eqb decides equality; the output is rhs
+   itself. ------------------------------------------------------------------------------------ *)
 Section EditScriptComparable.
   Variable T : Type.
   Variable eqb : T -> T -> bool.
